@@ -61,6 +61,33 @@ Definition interpret (t : Z) (b : bytes) : outcome value :=
   else if (t =? 16) || (t =? 17) || (t =? 18) then x <- be_n 8 b ;; Ok (VU64 x)
   else Ok (VBytes b).
 
+(* The same function driven by the tables the translator regenerates from ipfix/interpret.go (Gen/Interp.v): FieldType
+   NAME -> minimum length, NAME -> shape of the returned value.  Proofs/Tie.v proves `interpret` equal to it for every
+   FieldType constant, so every theorem about `interpret` is a theorem about what the source says now.  A shape this
+   function has no meaning for is Panic, which no theorem about the real tables can then get past. *)
+Fixpoint lookup_name {A} (name : string) (l : list (string * A)) (d : A) : A :=
+  match l with [] => d | (n, v) :: t => if String.eqb name n then v else lookup_name name t d end.
+Definition shape_value (shape : string) (b : bytes) : outcome value :=
+  if String.eqb shape "bool_eq1" then x <- idx0 b ;; Ok (VBool (x =? 1))
+  else if String.eqb shape "u8" then x <- idx0 b ;; Ok (VU8 x)
+  else if String.eqb shape "u16" then x <- be_n 2 b ;; Ok (VU16 x)
+  else if String.eqb shape "u32" then x <- be_n 4 b ;; Ok (VU32 x)
+  else if String.eqb shape "u64" then x <- be_n 8 b ;; Ok (VU64 x)
+  else if String.eqb shape "i8" then x <- idx0 b ;; Ok (VI8 (to_signed 8 x))
+  else if String.eqb shape "i16" then x <- be_n 2 b ;; Ok (VI16 (to_signed 16 x))
+  else if String.eqb shape "i32" then x <- be_n 4 b ;; Ok (VI32 (to_signed 32 x))
+  else if String.eqb shape "i64" then x <- be_n 8 b ;; Ok (VI64 (to_signed 64 x))
+  else if String.eqb shape "f32" then x <- be_n 4 b ;; Ok (VF32 x)
+  else if String.eqb shape "f64" then x <- be_n 8 b ;; Ok (VF64 x)
+  else if String.eqb shape "mac" then Ok (VMac b)
+  else if String.eqb shape "str" then Ok (VStr b)
+  else if String.eqb shape "ip" then Ok (VIP b)
+  else if String.eqb shape "raw" then Ok (VBytes b)
+  else Panic.
+Definition interpret_gen (mins : list (string * Z)) (mind : Z) (shapes : list (string * string)) (shaped : string)
+           (name : string) (b : bytes) : outcome value :=
+  if len b <? lookup_name name mins mind then Ok (VBytes b) else shape_value (lookup_name name shapes shaped) b.
+
 (* ---- templates ---- *)
 Record fspec := { f_id : Z; f_len : Z; f_pen : Z }.
 Record template := { t_id : Z; t_fcount : Z; t_fields : list fspec; t_scount : Z; t_scope : list fspec }.
